@@ -12,9 +12,10 @@ def closeEV (tol : Option Rat) : EV → EV → Bool
   | .sc a, .sc b => closeVal tol a b
   | a, b => decide (a = b)
 
-/-- `a + b` when an operand may be an ERROR VALUE (a perturbed stored result; the engine correspondence never feeds
-    one): an error operand wins over a failed coercion of the other operand ("b" + #N/A = #N/A), left first -/
-def addVals (a b : Val) : Val :=
+/-- `a + b` / `a - b` when an operand may be an ERROR VALUE (a perturbed stored result; the engine correspondence
+    never feeds one): an error operand wins over a failed coercion of the other operand ("b" + #N/A = #N/A), left
+    first -/
+def arithVals (op : Rat → Rat → Rat) (a b : Val) : Val :=
   match a, b with
   | .err e, _ => .err e
   | _, .err e => .err e
@@ -24,12 +25,14 @@ def addVals (a b : Val) : Val :=
     | .ok x =>
       match toNum b with
       | .error e => .err e
-      | .ok y => .num (x + y)
+      | .ok y => .num (op x y)
 
-/-- the formula semantics of EngineInst with that refinement of `+` -/
+/-- the formula semantics of EngineInst with that refinement of `+` and `-` (every other kind, `=` included, is
+    EngineInst's) -/
 def semV (specs : List Spec) : Nat → (Nat → EV) → EV := fun i env =>
   match specs[i]? with
-  | some (.fml (.add a b)) => .sc (addVals (env a).val (env b).val)
+  | some (.fml (.add a b)) => .sc (arithVals (· + ·) (env a).val (env b).val)
+  | some (.fml (.sub a b)) => .sc (arithVals (· - ·) (env a).val (env b).val)
   | _ => sem specs i env
 
 /-- what Excel computed: a node pycel cannot evaluate counts as the constant stored for it -/
